@@ -370,8 +370,47 @@ def _run(ctx, compare=True):
     return res
 
 
+FUNNEL = ["asyncio.CancelledError", "NotImplementedError", "StopAsyncIteration", "asyncio.TimeoutError", "OSError", "ValueError", "AttributeError", "RuntimeError"]
+
+
+def funnel(ctx):
+    """`universal_exception` itself: a wrapped coroutine raising each class, against `Model.ExcFunnel` (what leaves the
+    wrapper); what the dispatcher then does is judged by the fault family on the live server"""
+    import asyncio
+
+    from aioftp import errors, pathio
+
+    res = Result()
+    got = []
+    for name in FUNNEL:
+        cls = eval(name, {"asyncio": asyncio, "__builtins__": __builtins__})  # noqa: S307 - a fixed list of names
+
+        @pathio.universal_exception
+        async def f():
+            raise cls("x")
+
+        try:
+            asyncio.run(f())
+            got.append("returned")
+        except errors.PathIOError:
+            got.append("PathIOError")
+        except BaseException as e:  # noqa
+            got.append("same" if type(e) is cls else "other:" + type(e).__name__)
+    want = drive(["fault funnel " + n for n in FUNNEL]) if ctx.model_ok else [None] * len(FUNNEL)
+    res.lines += len(FUNNEL)
+    for n, g, w in zip(FUNNEL, got, want):
+        res.cases += 1
+        res.count("funnel")
+        res.distinct.add(("funnel", n))
+        if w is not None and w.split(" ")[0] != g:
+            res.disagreements.append({"correspondence": "pathio.universal_exception vs Model.ExcFunnel.universalException", "input": n, "impl": g, "model": w})
+    return res
+
+
 def correspondence(ctx):
-    return _run(ctx)
+    r = _run(ctx)
+    r.merge(funnel(ctx))
+    return r
 
 
 def search(ctx, prior):
